@@ -220,7 +220,7 @@ func applySeq(t *MergeTable, start Ver, seq []In, cfg MCfg) (seqResult, error) {
 
 // ruleAlgebra: idempotence, commutativity (pairs from every stored version),
 // order-independence of triples, monotonicity, on logical content.
-func ruleAlgebra(c *Check, rule string, t *MergeTable, u mergeUniverse, cfgs []MCfg) {
+func ruleAlgebra(c *Check, rule string, t *MergeTable, u mergeUniverse, cfgs []MCfg, commut bool) {
 	pos := c.P.Pos(t.Fn.Pos())
 	nIdem, nComm, nTri, nMono := 0, 0, 0, 0
 	badIdem, badComm, badTri, badMono := 0, 0, 0, 0
@@ -245,6 +245,7 @@ func ruleAlgebra(c *Check, rule string, t *MergeTable, u mergeUniverse, cfgs []M
 				}
 				nMono++
 				if st.Present && (!r1.final.Present || r1.final.TS < st.TS) {
+					_ = cfg
 					badMono++
 					if badMono <= 3 {
 						c.Bad(rule, fmt.Sprintf("%s/monotone:%v×%v", t.Name, st, x), fmt.Sprintf("merging %v into %v yields %v: the stored version moved backwards", x, st, r1.final), pos, nil)
@@ -258,6 +259,9 @@ func ruleAlgebra(c *Check, rule string, t *MergeTable, u mergeUniverse, cfgs []M
 					}
 				}
 			}
+		}
+		if !commut {
+			continue
 		}
 		// commutativity of pairs, from every stored version
 		for _, st := range u.Stored {
@@ -313,10 +317,10 @@ func ruleAlgebra(c *Check, rule string, t *MergeTable, u mergeUniverse, cfgs []M
 	if badIdem == 0 {
 		c.Ok(rule, t.Name+"/idempotent", fmt.Sprintf("%d (stored, incoming) cells: a second merge of the same entry is a keep and changes nothing", nIdem), pos)
 	}
-	if badComm == 0 {
+	if badComm == 0 && commut {
 		c.Ok(rule, t.Name+"/commutative", fmt.Sprintf("%d (stored, x, y) cells: both merge orders give the same logical content", nComm), pos)
 	}
-	if badTri == 0 {
+	if badTri == 0 && commut {
 		c.Ok(rule, t.Name+"/triples", fmt.Sprintf("%d permuted merge sequences of triples from the empty state agree (associativity at the level of version sets)", nTri), pos)
 	}
 	if badMono == 0 {
